@@ -89,6 +89,10 @@ VTABLES = {
     "empty": {"v1": "empty", "v2": "tiny", "v3": "small"},
     "big": {"v1": "cell-max", "v2": "indirect", "v3": "tiny"},
     "huge": {"v1": "huge", "v2": "overflow-min", "v3": "empty"},
+    # mixed groups: one member in eight carries an overflow value, the others are small (so that
+    # leaves hold several cells of both kinds and merge / split with overflow cells inside)
+    "mixed": {"v1": "two-page|small", "v2": "small", "v3": "tiny"},
+    "mixed2": {"v1": "overflow-min|tiny", "v2": "tiny|one-page", "v3": "small"},
 }
 
 EMBEDDINGS_QUICK = ["top", "tail", "deep(5)", "deep(11)", "spread(6)", "spread(64)", "scatter", "deep(250)",
@@ -261,7 +265,7 @@ def write_trace(path, run_ids, runs):
     return index
 
 
-CLASSES = ["root", "proof", "wit", "kv", "seqn", "poison"]
+CLASSES = ["root", "proof", "wit", "kv", "seqn", "poison", "cont"]
 
 
 def validate_runs(run_ids, runs, consts, tag, max_rejections=25):
@@ -315,6 +319,10 @@ def attribute(rej, script_steps):
     if res == "PANIC" or res.startswith("Err:") or res.startswith("HarnessErr"):
         # a call that the specification says succeeds (or is refused cleanly) blew up
         pass
+    if ev == "Image":
+        return "C03" if rec.get("kind") == "crash" else "C04"
+    if ev == "Fault":
+        return "C14"
     if cls == "root":
         return "C02"
     if cls == "proof":
